@@ -60,3 +60,24 @@ def cat(parts):
     for p in parts:
         out = out + (p.tobytes() if isinstance(p, memoryview) else p)
     return out
+
+
+class _Null:
+    def __enter__(self):
+        return self
+
+    def __exit__(self, *a):
+        return False
+
+
+def concrete():
+    """Context manager: run a purely concrete setup prefix natively (CrossHair's
+    opcode tracing switched off). Only for code that touches no symbolic value; the
+    semantics are identical, it is just ~50x faster than traced execution."""
+    try:
+        from crosshair.tracers import NoTracing, is_tracing
+    except Exception:
+        return _Null()
+    if is_tracing():
+        return NoTracing()
+    return _Null()
